@@ -44,14 +44,21 @@ def run_demo(d, wt, n=3):
 
 
 def main():
-    pid = sys.argv[1]
-    wt = Path('/tmp/wt-seed-%s' % pid)
-    ns = sys.argv[2:] or sorted(p.name for p in (wt / 'SEEDED').iterdir() if p.is_dir())
+    args = sys.argv[1:]
+    wave = 1
+    if args[0] == '--wave':
+        wave = int(args[1])
+        args = args[2:]
+    pid = args[0]
+    wt = Path('/tmp/wt-seed%s-%s' % ('' if wave == 1 else str(wave), pid))
+    ns = args[1:] or sorted(p.name for p in (wt / 'SEEDED').iterdir() if p.is_dir())
+    off = 2 * (wave - 1)
     ok_all = True
     for n in ns:
         d = wt / 'SEEDED' / n
-        rep = dict(id='%s-%s' % (pid, n))
-        print('== %s-%s' % (pid, n))
+        outn = str(int(n) + off)
+        rep = dict(id='%s-%s' % (pid, outn))
+        print('== %s-%s' % (pid, outn))
         sh('git checkout -- . && make -C src -j4', cwd=wt)
         rc, out = sh('sh build.sh', cwd=d, env=dict(os.environ, WT=str(wt)))
         if rc:
@@ -90,7 +97,7 @@ def main():
         if not good:
             ok_all = False
             continue
-        dst = VERIF / 'seeded' / ('%s-%s' % (pid, n))
+        dst = VERIF / 'seeded' / ('%s-%s' % (pid, outn))
         if dst.exists():
             shutil.rmtree(dst)
         dst.mkdir(parents=True)
